@@ -27,9 +27,7 @@ pub mod kzg10 {
 
 // ======================= specification (Marlin [CHMMVW20] sec. 6.1 / appendix: batching with degree bounds) =======================
 // One challenge per commitment, one more per degree-bounded commitment, all squeezed successively from the sponge.
-pub open spec fn nsq(cs: Seq<&LabeledCommitment<Commitment>>, k: nat) -> nat decreases k {
-    if k == 0 { 0 } else { nsq(cs, (k - 1) as nat) + 1 + (if cs[k - 1].degree_bound is Some { 1nat } else { 0nat }) }
-}
+//@spec marlin_sched_spec
 // shift table of the verifier key as a partial map  bound -> beta^(max_degree - bound) G
 pub open spec fn shift_of(vk: &VerifierKey, d: usize) -> Option<FS> {
     match vk.degree_bounds_and_shift_powers {
